@@ -528,7 +528,7 @@ def main(tier, seed):
     ev.bump("no-argument-invocation:" + ("signal" if r.sig else "exit-%s" % r.rc))
     sc0.close()
 
-    n = 330 if tier == "quick" else 700
+    n = 390 if tier == "quick" else 700
     srcs = M.sources(common.sub_seed(seed, PROP, "schemas"), n, {"expgen": {"max_ent": 8, "max_typ": 6}})
     for p in M.shipped(common.REPO, "unitary"):
         try:
